@@ -84,6 +84,8 @@ def make_class(rng, fields, rename_p=0.3, defaults=False, name=None):
                 ft = xo.Field(sub["cls"]._XoStruct, default=to_xo_dict(sub, ValGenH(rng).value(sub)))
         elif kind == "ref":
             ft = xo.Ref[sub["cls"]]
+            if rng.random() < 0.3:
+                ft = xo.Field(ft)  # declared through an explicit Field
         dflt = None
         if defaults and kind in ("sc", "str", "arr") and rng.random() < 0.5:
             if kind == "sc":
